@@ -307,10 +307,13 @@ CHECKS = {
               "ports in the launched TaskInfo: inbound = method bind on tcp://*:<port launched for this task> or an ipc path, declared transport; "
               "named outbound = tcp://<host of the binding task>:<that task's own bound port> (or its ipc path) with the inbound side's transport; "
               "explicit targets byte for byte; unmatched target or conflicting alias => creation fails. Non-trivial: a cross-host connection, "
-              "an alias, or a role-level override."),
+              "an alias, or a role-level override. TestIteratedChannels: bind/connect declared on iterated roles (2-4 elements; an iterator of "
+              "producers beside an iterator of consumers, or an iterated aggregator holding both, the connect declaration on the role or on "
+              "the iterated aggregator; target by role path or by global alias, both templated on the iteration variable; optionally a second, "
+              "explicit target that depends on the element): consumer x is told to connect to where producer x was bound."),
         assumptions=["channel arguments are read from the CONFIGURE command as the executor would receive it"],
-        quick=[R("^TestFixed$", 1, 1, 600), R("^TestChannels$", 25, 8, 900, shrinktime="90s")],
-        thorough=[R("^TestFixed$", 1, 1, 600), R("^TestChannels$", 300, 15, 3400, shrinktime="180s")],
+        quick=[R("^(TestFixed|TestIteratedFixed)$", 1, 1, 600), R("^TestChannels$", 25, 8, 900, shrinktime="90s"), R("^TestIteratedChannels$", 10, 2, 900, shrinktime="60s")],
+        thorough=[R("^(TestFixed|TestIteratedFixed)$", 1, 1, 600), R("^TestChannels$", 300, 15, 3400, shrinktime="180s"), R("^TestIteratedChannels$", 60, 2, 3400, shrinktime="120s")],
         floors={"cross-host": ("TestChannels", 0.3), "alias": ("TestChannels", 0.3)},
     ),
     "C14": dict(
